@@ -617,10 +617,24 @@ def _cut_segments(segs, k):
     return out
 
 
+_THREADED_BROKEN = False
+
+
 def threaded_file_load(path):
     """ThreadedHistory(FileHistory) with real, unscheduled threads"""
     th = ThreadedHistory(FileHistory(path))
-    return collect_load(th)
+
+    async def go():
+        out = []
+
+        async def inner():
+            async for x in th.load():
+                out.append(x)
+
+        await asyncio.wait_for(inner(), timeout=20)
+        return out
+
+    return asyncio.run(go())
 
 
 def file_oracle(case):
@@ -666,13 +680,18 @@ def file_oracle(case):
             segs.append(("ok", a, b, op[3]))
         elif k == "fresh":
             got = check_load(path, segs, "fresh load")
-            if got is not None and os.path.exists(path):
+            global _THREADED_BROKEN
+            if got is not None and os.path.exists(path) and not _THREADED_BROKEN:
                 # background-thread loading = inline loading (real threads, no schedule)
                 try:
                     tgot = threaded_file_load(path)
                     if tgot != got:
                         bad("ThreadedHistory.load", "differs from inline load (no concurrent append)",
                             f"threaded {tgot!r} inline {got!r}")
+                except (asyncio.TimeoutError, TimeoutError):
+                    _THREADED_BROKEN = True  # do not wait again in this process
+                    bad("ThreadedHistory.load", "never completes (no concurrent append)",
+                        f"load() of a {len(got)}-entry file did not finish within 20 s")
                 except Exception as e:
                     bad("ThreadedHistory.load", "raises", f"{type(e).__name__}: {e}")
         elif k == "truncall":
